@@ -177,3 +177,53 @@ func zzC20MergeIndependent(a, b int) {
 func ZZ_C20_merge_into_empty_independent_1() { zzC20MergeIndependent(0, 1) }
 func ZZ_C20_merge_into_empty_independent_2() { zzC20MergeIndependent(0, 2) }
 func ZZ_C20_merge_independent_1_1()          { zzC20MergeIndependent(1, 1) }
+
+// round 4: Sum after a history in which a query (which sorts) is followed by further additions - in
+// increasing order, the order that keeps the slice sorted - or a merge; Sum must reflect every value
+func ZZ_C20_sum_after_query_and_more_additions() {
+	zzvBound("sum histories", "a = 1..2 dyadic values, a query, b = 1..2 further dyadic values each at least the current maximum (and, separately, unconstrained), added directly or merged from another dataset; Sum asked before and after")
+	a, b := 1+zzvChoose("a", 2), 1+zzvChoose("b", 2)
+	d := NewDataset()
+	want := 0.0
+	var last float64
+	for i := 0; i < a; i++ {
+		v := zzvDyadic("v", 4, -(1 << 20), 1<<20)
+		if i > 0 {
+			zzvAssume(v >= last)
+		}
+		last = v
+		d.Add(v)
+		want += v
+	}
+	switch zzvChoose("query", 3) {
+	case 0:
+		d.Max()
+	case 1:
+		zzvAssert("sum-before", d.Sum() == want)
+	case 2:
+		d.LowerQuantile(0.5)
+	}
+	inOrder := zzvChoose("inOrder", 2) == 1
+	viaMerge := zzvChoose("viaMerge", 2) == 1
+	o := NewDataset()
+	for i := 0; i < b; i++ {
+		v := zzvDyadic("w", 4, -(1 << 20), 1<<20)
+		if inOrder {
+			zzvAssume(v >= last)
+			last = v
+		}
+		if viaMerge {
+			o.Add(v)
+		} else {
+			d.Add(v)
+		}
+		want += v
+	}
+	if viaMerge {
+		d.Merge(o)
+	}
+	zzvCover("history")
+	zzvAssert("sum-reflects-every-value", d.Sum() == want)
+	zzvAssert("count-reflects-every-value", d.Count == float64(a+b))
+	zzvAssert("sum-is-repeatable", d.Sum() == want)
+}
